@@ -14,7 +14,8 @@ Line-protocol handler for property C01.
   C01.static <program> <observations | ->  → the two-phase resolver model on a PLAIN program:
        `skip not-plain`, or TAB separated
          static  frag=0|1  den=eq|neq|na  rt=ok|na|<class|where|param|expected|observed>  <canonical static phase>
-       frag: the decidable hypotheses of `resolver_refines_den_plain_checked` hold;
+       frag: the decidable hypotheses of `resolver_refines_den_staticmap_checked` hold (for a
+             plain program they are those of `resolver_refines_den_plain_checked`);
        den:  twoPhase = den on the recorded outs (must be `eq` whenever frag=1: the theorem);
        rt:   the model's run-time phase on the model's static phase against the OBSERVED
              `_args` of every stage job and the observed top-level outs;
@@ -373,15 +374,6 @@ def printStatic (s : RB × List SNode) : String :=
       s!" (in {kv.1} {kv.2.ty.base} {kv.2.ty.mapDim} {kv.2.ty.arrDim} " ++ printR kv.2.exp ++ ")") ++ ")") ++
   " (out " ++ printR s.1.exp ++ "))"
 
-/-- the store a run leaves behind: the recorded outs of the fork of `node` that the fork
-assignment selects (the node's own fork dimensions only) -/
-def storeOfObs (nodes : List SNode) (outs : List (InstKey × J)) : Store :=
-  { outs := fun node f =>
-      match nodes.find? (fun n => fqid n.path == node) with
-      | some n => (oracleOf outs ⟨n.path, n.forks.map fun d => (d.1, (f.lookup d.1).getD .none)⟩).getD .null
-      | none => .null
-    idx := fun _ _ => [] }
-
 def staticReply (P : Program) (obs : Option Obs) : String :=
   if !Program.mapsOfStages P then "skip not-plain" else
   let s := staticProgram P fqid
@@ -390,13 +382,13 @@ def staticReply (P : Program) (obs : Option Obs) : String :=
       match kv.2.exp with
       | .split _ _ e => hasFork e
       | _ => false) then "skip map-source-depends-on-map-call" else
-  let frag := Program.plain P && wellTypedB P && acyclicB P.table
+  let frag := wellTypedMB P && acyclicB P.table && decide ((s.2.map fun n => fqid n.path).Nodup)
   let (denV, rtV) :=
     match obs with
     | none => ("na", "na")
     | some obs =>
-      let ρ := storeOfObs s.2 obs.outs
       let O : Oracle := oracleOf obs.outs
+      let ρ := storeOfNodes fqid s.2 O
       let d := den P O
       let t := twoPhaseM P fqid ρ
       let same := render d.1 == render t.1 && d.2.length == t.2.length &&
